@@ -307,6 +307,18 @@ func (s *Store) Query(tx *txState, ctx int, text string, args []driver.Value) (R
 			return RowSet{}, rs.Err
 		}
 		s.OpenRows++
+		// a row-returning write (INSERT/UPDATE/DELETE ... RETURNING) that returns rows and
+		// whose result set does not break is a write like any other: it gets a token
+		if (hasPrefix(text, "INSERT ") || hasPrefix(text, "UPDATE ") || hasPrefix(text, "DELETE ")) && len(rs.Rows) > 0 && rs.BreakAfter == 0 {
+			s.nextTok++
+			tok := s.nextTok
+			s.Log[len(s.Log)-1].Tok = tok
+			if tx != nil {
+				tx.pending = append(tx.pending, tok)
+			} else {
+				s.Durable = append(s.Durable, tok)
+			}
+		}
 		return rs, nil
 	}
 	s.OpenRows++
